@@ -66,7 +66,7 @@ def _example_cases():
 
 def cases(rng: random.Random, tier: str):
     out = [dict(c) for c in _corpus()] + _example_cases()
-    n = 3000 if tier == "quick" else 30000
+    n = 16000 if tier == "quick" else 90000
     for k in range(n):
         nmax = 7 if k % 3 else 5
         g = R.gen_graph(rng, 2, nmax)
